@@ -159,6 +159,12 @@ impl Job for Complete {
             Ok(b) => b,
             Err(p) => return json!({"id": sc.id, "prove": "ok", "to_bytes": format!("panic@{}", panic_key(&p))}),
         };
+        if let Ok(p) = std::env::var("WFH_DUMP_PROOFS") {
+            use std::io::Write;
+            if let Ok(mut f) = std::fs::OpenOptions::new().create(true).append(true).open(p) {
+                let _ = writeln!(f, "{}", serde_json::to_string(&bytes).unwrap());
+            }
+        }
         let v1 = verify_with::<B, H, DefaultRandomCoin<H>>(proof, b.inputs.clone());
         let parsed = guarded(|| Proof::from_bytes(&bytes));
         let (parse, v2) = match parsed {
